@@ -171,6 +171,25 @@ pub fn static_body(op: Op, nullable: bool, arg: FieldValue, p: FieldValue) {
 
 pub mod probe {
     use super::*;
+
+    #[kani::proof]
+    #[kani::unwind(1)]
+    #[kani::stub(std::fmt::format, crate::stub_format)]
+    #[kani::stub(std::sync::Arc::drop_slow, crate::stub_arc_drop_slow)]
+    pub fn dyn_ge_i_i_nodrop_u1() {
+        dynamic_body(Op::Ge, mkv!(I), mkv!(I));
+        kani::cover!(true, "witness: end of harness reached");
+    }
+
+    #[kani::proof]
+    #[kani::unwind(2)]
+    #[kani::stub(std::fmt::format, crate::stub_format)]
+    #[kani::stub(std::sync::Arc::drop_slow, crate::stub_arc_drop_slow)]
+    pub fn dyn_ge_i_i_nodrop() {
+        dynamic_body(Op::Ge, mkv!(I), mkv!(I));
+        kani::cover!(true, "witness: end of harness reached");
+    }
+
     g!(dyn_ge_i_i, 4, dynamic_body(Op::Ge, mkv!(I), mkv!(I)););
     g!(dyn_lt_i_u, 4, dynamic_body(Op::Lt, mkv!(I), mkv!(U)););
     g!(dyn_eq_i_u, 4, dynamic_body(Op::Eq, mkv!(I), mkv!(U)););
